@@ -116,6 +116,30 @@ def rebase (parts : List Part) (slack : Int) (sest : Option Int) (o : Obs) : Exc
     .ok { o with fin := o.fin - s, tmin := if o.n > 0 then o.tmin - s else o.tmin,
                  tmax := if o.n > 0 then o.tmax - s else o.tmax, toks := o.toks.map fun (k, t) => (k, t - s) }
 
+/-- `drain=0`: a profile too large to drain (more than 2³¹ operations). Observed: `Left()` before the start, `Left()` after
+`Start` and the first few `Next()`, and those first operations. The count must be in the accepted range (sum over the
+parts), `Left()` must have gone down by the number of operations taken, and each of them must pass the acceptance test of
+the first part (they belong to it as long as the first part is expected to hold more operations than were taken). -/
+def judgeLeftOnly (parts : List Part) (kv : List (String × String)) : String :=
+  match getI? kv "left0", getI? kv "left1", parseToks (getS kv "toks") with
+  | some left0, some left1, some toks =>
+      let lo := sumI (parts.map fun p => p.countRange.1)
+      let hi := sumI (parts.map fun p => p.countRange.2)
+      if left0 < lo || left0 > hi then s!"fail:left:Left() before start = {left0}, the profile holds [{lo},{hi}] operations"
+      else if left1 != left0 - toks.length then
+        s!"fail:left:Left() = {left1} after {toks.length} of {left0} operations were handed out"
+      else if toks.length < 8 && (toks.length : Int) != left0 then
+        s!"fail:count:Next() reported the end after {toks.length} operations, Left() before start = {left0}"
+      else
+        match parts with
+        | p :: _ =>
+            if p.countRange.1 < toks.length then "ok"
+            else match toks.find? fun (k, t) => !(p.tokenOk k t) with
+              | some (k, t) => s!"fail:time:k={k} t={t}"
+              | none => "ok"
+        | [] => "ok"
+  | _, _, _ => s!"fail:crash:unparsable observation"
+
 def handle0 : Handler := fun input impl =>
   match parse (parseKV input) with
   | .bad => ("-", "fail:driver:unparsable input")
@@ -130,6 +154,7 @@ def handle0 : Handler := fun input impl =>
     else if impl == "TOOMANY" then ("-", judgeTooMany parts)
     else if impl == "HANG" then ("-", "fail:hang:the schedule did not finish")
     else if sumI (parts.map fun p => p.countRange.2) > int64Max then ("-", "skip:more-than-int64-operations")
+    else if impl.startsWith "LEFTONLY " then ("-", judgeLeftOnly parts (parseKV (impl.drop 9).toString))
     else
       match parseObs (parseKV impl) with
       | some obs =>
